@@ -10,6 +10,12 @@ model.  Text parsing stays in Python: the harness parses entries and peers with 
 Family `layered` writes [certificate_auth] path rules and a [rate_limit] table next to the policy and
 lets peers present whitelisted / unlisted / no certificates (direct oracle only: the address decides).
 
+Families `reads` and `pumppeers` watch the policy at work on whole connections of the running server (direct oracle
+only): requests - Gemini lines, Titan uploads - whose bytes arrive in several reads in the same, the next or a later
+event-loop iteration (real GeminiServerProtocol, fake transport: sim/acl_reads.py), and connections from different
+addresses that overlap on the PyOpenSSL backend (real TLSServerProtocol over memory BIOs: sim/pump_multi.py).  A peer the
+policy refuses is answered 53 and no handler / upload handler runs for it; an admitted one is served.
+
 Direct oracle (independent of the Lean model): the admission rule of the property text evaluated
 with `ipaddress` parsing and integer interval arithmetic.
 """
@@ -40,6 +46,8 @@ ASSUMPTIONS = [
     "with access control enabled but an empty policy (no entry in either list, default_allow = true) get_access_control_config builds no component, so the peer string is never parsed and an unparsable peer name (e.g. 'unknown' when the transport has no peername) is served like everybody else; the oracle treats this as 'as configured' (everybody is admitted by that policy) and enforces 'unparsable => 53' wherever a policy exists; AccessControl objects themselves refuse unparsable names under every configuration (family objects)",
     "the chain is assembled in the order certificate auth, access control, rate limiter (extraction item chainOrder, theorem chain_order_tie); families objects and wiring configure no certificate rules, so access control is the first component a request meets; family layered writes [certificate_auth] rules next to the policy: there a refused peer may meet the 6x of certificate auth first (reference: the real CertificateAuth built from the written rules, evaluated on its own), never an admission",
     "the peer address is what the transport reports as peername[0]; the wiring family feeds it through a fake transport, no socket is bound",
+    "families reads and pumppeers (direct oracle, no Lean line) build the chain from the real AccessControl of the case's policy among components that admit everybody (scripted slow ones, the real RateLimiter with a capacity nobody reaches), so access control is the only component that can refuse: a refused peer must see 53 (or nothing while its request is incomplete or after it is gone) and no handler run, an admitted peer whose whole request arrived is served exactly once; 'admitted' is read as 'handed to the request / upload handler'",
+    "family reads delivers the pieces of a request by calling data_received from a task of the same loop: `[\"y\", 1]` between two pieces is the loop iteration in which the chain's task made its first step and its done-callbacks are still queued - where asyncio's next _read_ready lands when the socket already holds more bytes; family pumppeers interleaves the stages of real PyOpenSSL handshakes of several peers (sim/pump_multi.py), each fake TCP transport reporting its own peername",
 ]
 LEVEL_TEXT = (
     "Lean 4 theorems over the executable model of AccessControl and of the configuration path, for every allow/deny list, default and address "
@@ -758,4 +766,376 @@ class Layered(_AclFamily):
         return f"{obs['backend']}:{kind}:dflt={int(case['default'])}:{'whitelisted-cert-from-denied-address:' if listed_denied else ''}st={sts}"
 
 
-FAMILIES = [Objects(), Wiring(), Layered()]
+# ----------------------------------------------------------------------------
+# the policy at work in the running server: requests that arrive in several reads, connections that overlap
+# ----------------------------------------------------------------------------
+SERVED_LINES = ["gemini://localhost/", "gemini://localhost/app/x.gmi?q=1",
+                "titan://localhost/up/a.txt;size=3;mime=text/plain", "titan://localhost/up/b.gmi;size=17;mime=text/gemini;token=t",
+                "titan://localhost/up/big.bin;size=40", "titan://localhost/up/a.txt;size=0;token=t"]
+# the lines sim/pump_multi.py knows the content of (size=3 / size=2 / size=0)
+PUMP_LINES = ["gemini://localhost/", "gemini://localhost/app/x.gmi?q=1", "titan://localhost/up/a.txt;size=3;mime=text/plain",
+              "titan://localhost/up/b.gmi;size=2;token=t", "titan://localhost/up/a.txt;size=0;token=t"]
+NEIGHBOURS_BEFORE = [None, None, None, ["slow", 1], ["slow", 2], ["rate"]]
+NEIGHBOURS_AFTER = [None, None, None, ["slow", 1], ["slow", 3], ["rate"]]
+
+
+def gen_policy_and_peers(rng, mixed=True):
+    """a policy every entry of which is interpretable, and peers sorted by what the property text says about them"""
+    for _ in range(16):
+        allow, deny, nets, default = gen_lists(rng, malformed_p=0.0)
+        peers = list(dict.fromkeys(gen_peers(rng, allow, deny, nets)))
+        ref = ref_policy(allow, deny, default, peers)
+        if ref == "nostart":
+            continue
+        adm = [p for p, r in zip(peers, ref) if r]
+        rej = [p for p, r in zip(peers, ref) if not r]
+        rej_parsed = [p for p in rej if peer_tuple(p) is not None]
+        if not mixed or (adm and rej_parsed):
+            return allow, deny, default, adm, rej_parsed, [p for p in rej if peer_tuple(p) is None]
+    return None, ["198.51.100.0/24"], True, ["192.0.2.7", "2001:db8::5"], ["198.51.100.9"], ["unknown"]
+
+
+def pick_peers(rng, adm, rej, unparsed, n):
+    """n peers; whenever the policy tells peers apart, neighbours get different verdicts"""
+    out = []
+    flip = rng.random() < 0.5
+    for k in range(n):
+        want_adm = (k % 2 == 0) != flip
+        if rng.random() < 0.15:
+            want_adm = not want_adm
+        pool = adm if (want_adm and adm) else (unparsed if (unparsed and rng.random() < 0.12) else rej) or adm or unparsed
+        out.append(rng.choice(pool))
+    return out
+
+
+def mk_chain(case, loop=None):
+    """the chain's components: the real AccessControl built from the case's policy among neighbours that admit everybody"""
+    from nauyaca.server.middleware import AccessControl, AccessControlConfig, RateLimitConfig, RateLimiter
+
+    from ..sim.acl_reads import Slow
+
+    comps = []
+    for s in case["chain"]:
+        if s[0] == "acl":
+            comps.append(AccessControl(AccessControlConfig(allow_list=case["allow"], deny_list=case["deny"], default_allow=case["default"])))
+        elif s[0] == "slow":
+            comps.append(Slow(s[1]))
+        else:
+            comps.append(RateLimiter(RateLimitConfig(capacity=100000, refill_rate=1.0)))
+    return comps
+
+
+def gen_chain(rng):
+    b, a = rng.choice(NEIGHBOURS_BEFORE), rng.choice(NEIGHBOURS_AFTER)
+    return ([b] if b else []) + [["acl"]] + ([a] if a else [])
+
+
+class _ServedFamily(Family):
+    """shared oracle of the families that watch whole connections: obs["conns"][i] = {st, h, u, lost, complete, ...},
+    obs["consults"] = [[i, url, ip, fp]...], obs["trace"]"""
+
+    backend = ""
+
+    def describe(self, i, cn, r):
+        raise NotImplementedError
+
+    def oracle(self, case, obs):
+        peers = [c["peer"] for c in case["conns"]]
+        ref = ref_policy(case["allow"], case["deny"], case["default"], peers)
+        if ref == "nostart":
+            return None
+        policy = f"allow={case['allow']!r} deny={case['deny']!r} default_allow={case['default']}"
+        trace = " ".join(obs["trace"])
+        for i, (cn, admit, r) in enumerate(zip(case["conns"], ref, obs["conns"])):
+            what = self.describe(i, cn, r)
+            asked = [c for c in obs["consults"] if c[0] == i]
+            asked_text = ("; the chain was asked about address(es) " + ", ".join(repr(c[2]) for c in asked) + " for it") if asked else "; the chain was not asked"
+            others = ", ".join(f"{j}: {p!r}" for j, p in enumerate(peers) if j != i)
+            tail = (f"{asked_text}; " + (f"other connections open at the time: {others}; " if others else "") +
+                    f"chain {case['chain']}; {self.backend}order of events: {trace}")
+            if not admit:
+                if r["h"] or r["u"] or r["st"][:1] == "2":
+                    ran = (f"the upload handler ran ({r['u']}x" + (f", it was handed the content {r['stored']!r}" if r.get("stored") is not None else "") + ")") if r["u"] else \
+                          (f"the request handler ran ({r['h']}x)" if r["h"] else "no handler ran")
+                    return ("denied-peer-served", f"{what}: the configured policy ({policy}) refuses this address, yet {ran} and the client was answered {r['st']!r}{tail}")
+                if r["st"] != "53" and not (r["st"] == "" and (r["lost"] or not r["complete"] or not asked)):
+                    return ("denied-peer-not-53", f"{what}: the configured policy ({policy}) refuses this address; expected 53, the client received {r['st']!r}{tail}")
+                if r["st"] == "53" and "head" in r and not is_53(r["head"]):
+                    return ("refusal-not-53", f"{what}: refused with {r['head']!r} instead of a 53 line")
+            else:
+                if r["st"] == "53":
+                    return ("wrong-decision", f"{what}: the configured policy ({policy}) admits this address but the answer was 53{tail}")
+                if r["complete"] and not r["lost"] and (r["h"] + r["u"] != 1 or r["st"] != "20"):
+                    return ("admitted-peer-not-served", f"{what}: the configured policy ({policy}) admits this address and nothing else in the chain refuses anybody, yet the whole request "
+                                                        f"led to {r['h']} handler / {r['u']} upload handler run(s) and the answer {r['st']!r}{tail}")
+        return None
+
+    def shrink_candidates(self, cur):
+        ev = "d" if any(e[0] == "d" for e in cur["sched"]) else "s"
+        for i in range(len(cur["conns"])):
+            if len(cur["conns"]) > 1:
+                sched = [[e[0], e[1] - (e[1] > i)] if e[0] in (ev, "x") else e for e in cur["sched"] if not (e[0] in (ev, "x") and e[1] == i)]
+                yield dict(cur, conns=cur["conns"][:i] + cur["conns"][i + 1:], sched=sched)
+        for j, s in enumerate(cur["chain"]):
+            if s[0] != "acl":
+                yield dict(cur, chain=cur["chain"][:j] + cur["chain"][j + 1:])
+        for k, e in enumerate(cur["sched"]):
+            if e[0] == "x" or (e[0] == "y" and ev == "s"):
+                yield dict(cur, sched=cur["sched"][:k] + cur["sched"][k + 1:])
+        for i, c in enumerate(cur["conns"]):
+            if c.get("cuts") and ev == "s":
+                last = max(k for k, e in enumerate(cur["sched"]) if e == ["s", i])
+                yield dict(cur, conns=cur["conns"][:i] + [dict(c, cuts=[])] + cur["conns"][i + 1:], sched=cur["sched"][:last] + cur["sched"][last + 1:])
+
+    def shrink(self, case, bad):
+        cur, budget, changed = case, 60, True
+        while changed and budget > 0:
+            changed = False
+            for cand in self.shrink_candidates(cur):
+                budget -= 1
+                if budget <= 0:
+                    break
+                try:
+                    if bad(cand):
+                        cur, changed = cand, True
+                        break
+                except Exception:  # noqa: BLE001
+                    pass
+        return cur
+
+
+class Reads(_ServedFamily):
+    """the policy at work on connections of the real GeminiServerProtocol (fake transport reporting the peer's address,
+    virtual loop, real MiddlewareChain holding the real AccessControl among neighbours that admit everybody): Gemini
+    requests and Titan uploads from admitted and refused addresses, the bytes of a request - request line, upload
+    content - cut into several reads that arrive in the same, the next or a later event-loop iteration, several
+    connections at once, connections that are lost half-way.
+
+    Direct oracle (no Lean line), per connection with ITS address: a peer the configured policy refuses (also one whose
+    address cannot be parsed) is answered 53 - or nothing as long as its request is incomplete / after it is gone - and
+    neither the request handler nor the upload handler ever runs for it; a peer the policy admits is never answered 53
+    and, once its whole request is there, is served exactly once."""
+
+    name = "reads"
+    quick_n = 2400
+    thorough_n = 60000
+    backend = ""
+
+    FIXED = [
+        # Titan uploads from a refused and from an admitted address: request line and content in two reads that the loop
+        # hands over in consecutive iterations / in one read / a long while apart
+        {"allow": None, "deny": ["10.0.0.0/8"], "default": True, "chain": [["acl"]],
+         "conns": [{"peer": "10.1.2.3", "line": SERVED_LINES[2], "cuts": [len(SERVED_LINES[2]) + 2]}, {"peer": "192.0.2.7", "line": SERVED_LINES[2], "cuts": [len(SERVED_LINES[2]) + 2]}],
+         "sched": [["d", 0], ["y", 1], ["d", 0], ["y", 4], ["d", 1], ["y", 1], ["d", 1]]},
+        {"allow": None, "deny": ["10.0.0.0/8"], "default": True, "chain": [["acl"]],
+         "conns": [{"peer": "10.1.2.3", "line": SERVED_LINES[2], "cuts": []}, {"peer": "192.0.2.7", "line": SERVED_LINES[2], "cuts": []}], "sched": [["d", 0], ["d", 1]]},
+        {"allow": None, "deny": ["10.0.0.0/8"], "default": True, "chain": [["acl"]],
+         "conns": [{"peer": "10.1.2.3", "line": SERVED_LINES[3], "cuts": [len(SERVED_LINES[3]) + 2]}, {"peer": "192.0.2.7", "line": SERVED_LINES[3], "cuts": [len(SERVED_LINES[3]) + 2]}],
+         "sched": [["d", 0], ["d", 1], ["y", 6], ["d", 0], ["d", 1]]},
+        {"allow": ["2001:db8::/32"], "deny": None, "default": False, "chain": [["slow", 2], ["acl"]],
+         "conns": [{"peer": "2001:db9::1", "line": SERVED_LINES[0], "cuts": [5]}, {"peer": "2001:db8::1", "line": SERVED_LINES[1], "cuts": [9, 20]}],
+         "sched": [["d", 0], ["d", 1], ["y", 1], ["d", 1], ["d", 0], ["y", 2], ["d", 1]]},
+    ]
+
+    @property
+    def R(self):          # (gen runs before setup)
+        from ..sim import acl_reads
+
+        return acl_reads
+
+    def setup(self):
+        from ..sim import srv as sim
+
+        self.loop = sim.VLoop()
+        asyncio.set_event_loop(self.loop)
+
+    def gen_cuts(self, rng, cn):
+        whole = len(self.R.request_bytes(cn))
+        eol = len(cn["line"].encode()) + 2
+        r = rng.random()
+        if whole > eol:      # an upload with content
+            if r < 0.15:
+                return []
+            if r < 0.55:
+                return [eol]                                        # request line | content
+            if r < 0.70:
+                return [eol, rng.randint(eol + 1, whole - 1)] if whole - eol > 1 else [eol]
+            if r < 0.80:
+                return [rng.randint(eol + 1, whole - 1)] if whole - eol > 1 else [eol]     # line and some content | the rest
+            if r < 0.88:
+                return [eol - 1]                                    # ... CR | LF content
+        elif r < 0.4:
+            return []
+        return sorted(set(rng.sample(range(1, whole), min(whole - 1, rng.choice((1, 1, 2, 3))))))
+
+    def gen(self, rng, n):
+        k = 0
+        for c in self.share(self.FIXED):
+            k += 1
+            yield c
+        while k < n:
+            k += 1
+            allow, deny, default, adm, rej, unparsed = gen_policy_and_peers(rng, mixed=rng.random() < 0.85)
+            nconn = rng.choice((1, 1, 2, 2, 3))
+            conns = []
+            for p in pick_peers(rng, adm, rej, unparsed, nconn):
+                cn = {"peer": p, "line": rng.choice(SERVED_LINES[2:5] if rng.random() < 0.6 else SERVED_LINES)}
+                cn["cuts"] = self.gen_cuts(rng, cn)
+                conns.append(cn)
+            todo = [[i] * (len(c["cuts"]) + 1) for i, c in enumerate(conns)]
+            sched = []
+            while any(todo):
+                i = rng.choice([j for j, t in enumerate(todo) if t])
+                todo[i].pop()
+                sched.append(["d", i])
+                y = rng.choice((0, 0, 1, 1, 1, 2, 2, 3, 4, 6))
+                if y:
+                    sched.append(["y", y])
+            if rng.random() < 0.12:
+                sched.insert(rng.randint(1, len(sched)), ["x", rng.randrange(nconn)])
+            yield {"allow": allow, "deny": deny, "default": default, "chain": gen_chain(rng), "conns": conns, "sched": sched}
+
+    def impl(self, case):
+        o = self.loop.run_until_complete(self.R.run_reads(self.loop, case, mk_chain(case)))
+        for r in o["conns"]:
+            r["complete"] = r["sent"] == r["parts"]
+        return o
+
+    def describe(self, i, cn, r):
+        return f"connection {i} ({cn['line']!r} from {cn['peer']!r}, its {len(self.R.request_bytes(cn))} bytes delivered in {r['parts']} read(s) cut at {cn['cuts']})"
+
+    def gaps(self, case):
+        """per Titan upload with content: loop iterations between the read that completes the request line and the read
+        that completes the content (None: same read)"""
+        out = []
+        for i, cn in enumerate(case["conns"]):
+            whole = len(self.R.request_bytes(cn))
+            eol = len(cn["line"].encode()) + 2
+            if whole == eol:
+                continue
+            ends = sorted({c for c in cn["cuts"] if 0 < c < whole}) + [whole]
+            k_line = next(k for k, e in enumerate(ends) if e >= eol)
+            if k_line == len(ends) - 1:
+                out.append(None)
+                continue
+            seen, gap, counting = 0, 0, False
+            for e in case["sched"]:
+                if e[0] == "d" and e[1] == i:
+                    if seen == k_line:
+                        counting = True
+                    seen += 1
+                    if seen == len(ends):
+                        break
+                elif e[0] == "y" and counting:
+                    gap += e[1]
+            out.append(gap if seen == len(ends) else -1)
+        return out
+
+    def key(self, case, obs):
+        kinds = "+".join(s[0] + (str(s[1]) if s[0] == "slow" else "") for s in case["chain"])
+        g = self.gaps(case)
+        gs = ",".join(sorted({"one-read" if x is None else "cut-short" if x < 0 else f"gap{min(x, 4)}" for x in g})) or "gemini-only"
+        sts = "".join(sorted({r["st"][:1] or "-" for r in obs["conns"]}))
+        return f"{kinds}|n{len(case['conns'])}|{gs}|lost{int(any(r['lost'] for r in obs['conns']))}|st={sts}"
+
+
+class PumpPeers(_ServedFamily):
+    """PyOpenSSL backend (the TLS layer the server uses as soon as client certificates matter): two to four connections
+    of one server from DIFFERENT addresses - some the policy admits, some it refuses - open AT THE SAME TIME (real
+    TLSServerProtocol objects from one server context, real TLS clients over memory BIOs with or without a client
+    certificate, one shared real chain holding the real AccessControl; sim/pump_multi.py).  The stages of the
+    connections (TCP connect, first flight, end of the handshake, the pieces of the request, loss) are interleaved in
+    a chosen order, so that whatever the backend remembers about a peer is read while another peer has just connected.
+
+    Direct oracle (no Lean line): every connection is decided by ITS OWN address - the oracle of family `reads`."""
+
+    name = "pumppeers"
+    quick_n = 640
+    thorough_n = 8000
+    backend = "pyopenssl backend, "
+
+    FIXED = [
+        # the refused address connects first, the admitted one connects before the first has finished its handshake
+        {"allow": None, "deny": ["198.51.100.0/24"], "default": True, "chain": [["acl"]],
+         "conns": [{"peer": "198.51.100.9", "line": PUMP_LINES[0], "cert": None, "cuts": []}, {"peer": "192.0.2.7", "line": PUMP_LINES[0], "cert": None, "cuts": []}],
+         "sched": [["s", 0], ["s", 1], ["s", 0], ["s", 0], ["s", 0], ["y", 3], ["s", 1], ["s", 1], ["s", 1], ["y", 3]]},
+        # the other way round, with a client certificate and an upload
+        {"allow": ["2001:db8::/32"], "deny": None, "default": False, "chain": [["acl"], ["slow", 1]],
+         "conns": [{"peer": "2001:db8::5", "line": PUMP_LINES[2], "cert": 0, "cuts": [len(PUMP_LINES[2]) + 2]}, {"peer": "2001:db9::5", "line": PUMP_LINES[2], "cert": 1, "cuts": []}],
+         "sched": [["s", 0], ["s", 0], ["s", 1], ["s", 0], ["s", 1], ["s", 0], ["y", 1], ["s", 1], ["s", 0], ["s", 1], ["y", 4]]},
+    ]
+
+    def setup(self):
+        from ..sim import pump_multi
+        from ..sim import srv as sim
+
+        self.M, self.sim, self.loop = pump_multi, sim, sim.VLoop()
+        asyncio.set_event_loop(self.loop)
+
+    def gen(self, rng, n):
+        from ..sim.mw_multi import wire_bytes
+
+        k = 0
+        for c in self.share(self.FIXED):
+            k += 1
+            yield c
+        while k < n:
+            k += 1
+            allow, deny, default, adm, rej, unparsed = gen_policy_and_peers(rng, mixed=rng.random() < 0.9)
+            nconn = rng.choice((2, 2, 2, 3, 3, 4))
+            conns = []
+            for p in pick_peers(rng, adm, rej, unparsed, nconn):
+                cn = {"peer": p, "line": rng.choice(PUMP_LINES), "cert": rng.choice((None, None, None, 0, 1, 3))}
+                size = len(wire_bytes(cn["line"]))
+                cn["cuts"] = [rng.randint(1, size - 1)] if rng.random() < 0.3 else []
+                conns.append(cn)
+            todo = [[i] * (4 + len(c["cuts"])) for i, c in enumerate(conns)]
+            sched = []
+            while any(todo):
+                i = rng.choice([j for j, t in enumerate(todo) if t])
+                burst = rng.choice((1, 1, 1, 2, 3)) if len(todo[i]) > 1 else 1
+                for _ in range(min(burst, len(todo[i]))):
+                    todo[i].pop()
+                    sched.append(["s", i])
+                y = rng.choice((0, 0, 0, 1, 2, 5))
+                if y:
+                    sched.append(["y", y])
+            if rng.random() < 0.15:
+                sched.insert(rng.randint(1, len(sched)), ["x", rng.randrange(nconn)])
+            yield {"allow": allow, "deny": deny, "default": default, "chain": gen_chain(rng), "conns": conns, "sched": sched}
+
+    def impl(self, case):
+        loop = self.loop
+        o = loop.run_until_complete(self.M.run_pump_multi(loop, case, mk_chain(case)))
+        left = [t for t in asyncio.all_tasks(loop) if not t.done()]
+        for t in left:
+            t.cancel()
+        if left:
+            loop.run_until_complete(self.sim._drain())
+        for r in o["conns"]:
+            r["complete"] = bool(r["sent_all"])
+        o.pop("comp", None)
+        return o
+
+    def describe(self, i, cn, r):
+        return (f"connection {i} ({cn['line']!r} from {cn['peer']!r}, " + (f"presenting client certificate {cn['cert']}" if cn.get("cert") is not None else "no client certificate") +
+                (f", request cut at {cn['cuts']}" if cn.get("cuts") else "") + ")")
+
+    def key(self, case, obs):
+        kinds = "+".join(s[0] for s in case["chain"])
+        tr = obs["trace"]
+        # did another peer connect between some connection's TCP connect and the end of its handshake?
+        inter = False
+        for i in range(len(case["conns"])):
+            try:
+                a, b = tr.index(f"{i}:connect"), tr.index(f"{i}:handshake-done")
+            except ValueError:
+                continue
+            inter = inter or any(t.endswith(":connect") for t in tr[a + 1:b])
+        ref = ref_policy(case["allow"], case["deny"], case["default"], [c["peer"] for c in case["conns"]])
+        verdicts = "mixed" if len(set(ref)) > 1 else "alike"
+        sts = "".join(sorted({r["st"][:1] or "-" for r in obs["conns"]}))
+        return f"{kinds}|n{len(case['conns'])}|{'overlap' if inter else 'apart'}|{verdicts}|lost{int(any(r['lost'] for r in obs['conns']))}|st={sts}"
+
+
+FAMILIES = [Objects(), Wiring(), Layered(), Reads(), PumpPeers()]
